@@ -1,5 +1,229 @@
-(* C17 property theorems: statements only, each closed by `exact`. (stub, replaced below) *)
-From Coq Require Import ZArith List.
-From PAFC17 Require Import Model.
-Theorem C17_stub : cur = mkvariant false false false.
-Proof. exact eq_refl. Qed.
+(* C17 property theorems: statements only, each closed by `exact`. *)
+From Coq Require Import QArith Reals.
+From Coq Require Import ZArith List Bool.
+From Coq Require Import Floats.PrimFloat.
+From PAFCommon Require Import PyFloat Lists.
+From PAFC17 Require Import Model Proofs ProofsT ProofsR Witness.
+Import ListNotations.
+Open Scope nat_scope.
+
+(* ===== natural-parameter vectors of any dimension form a Q-module (exact arithmetic) ===== *)
+Theorem C17_vec_sub_add : forall a b : list Q, length a = length b ->
+  Forall2 Qeq (vsub Qops (vadd Qops a b) b) a.
+Proof. exact vsub_vadd. Qed.
+
+Theorem C17_vec_scale_add : forall (j k : Q) (a : list Q),
+  Forall2 Qeq (vscale Qops (j + k)%Q a) (vadd Qops (vscale Qops j a) (vscale Qops k a)).
+Proof. exact vscale_add. Qed.
+
+Theorem C17_vec_scale_scale : forall (j k : Q) (a : list Q),
+  Forall2 Qeq (vscale Qops k (vscale Qops j a)) (vscale Qops (j * k)%Q a).
+Proof. exact vscale_mul. Qed.
+
+(* ===== ordinary <-> natural parameters round-trip (natural-normal, gamma, beta) ===== *)
+Theorem C17_roundtrip_ordinary : forall (f : family) (p : list Q), exact_family f -> length p = 2%nat ->
+  Forall2 Qeq (of_nat Qops f (to_nat Qops f p)) p.
+Proof. exact of_to_nat. Qed.
+
+Theorem C17_roundtrip_natural : forall (f : family) (e : list Q), exact_family f -> length e = 2%nat ->
+  Forall2 Qeq (to_nat Qops f (of_nat Qops f e)) e.
+Proof. exact to_of_nat. Qed.
+
+(* ===== *, /, ** act additively / linearly on natural parameters (any number of array elements) ===== *)
+Theorem C17_mul_additive : forall a b : qmsg, exact_family (fam a) -> exact_family (fam b) -> wf a -> wf b ->
+  Forall2 (Forall2 Qeq) (nat_of Qops (b_sum Qops a [b])) (map2 (vadd Qops) (nat_of Qops a) (nat_of Qops b)).
+Proof. exact sum_additive. Qed.
+
+Theorem C17_div_subtractive : forall a b : qmsg, exact_family (fam a) -> exact_family (fam b) -> wf a -> wf b ->
+  Forall2 (Forall2 Qeq) (nat_of Qops (b_div Qops a b)) (map2 (vsub Qops) (nat_of Qops a) (nat_of Qops b)).
+Proof. exact div_subtractive. Qed.
+
+Theorem C17_pow_linear : forall (a : qmsg) (k : Q), exact_family (fam a) -> wf a ->
+  Forall2 (Forall2 Qeq) (nat_of Qops (b_pow Qops a k)) (map (vscale Qops k) (nat_of Qops a)).
+Proof. exact pow_linear. Qed.
+
+(* ===== self-consistency. Full statement "(a*b)/b equals a" (parameters, class, shape, id, limits AND
+   log_norm): refuted for the pinned code, holds exactly when log_norm a + log_norm b = 0 ===== *)
+Theorem C17_div_mul_refuted : exists a b : qmsg,
+  exact_family (fam a) /\ exact_family (fam b) /\ wf a /\ wf b /\ same_shape a b /\
+  ~ msg_equiv (b_div Qops (b_sum Qops a [b]) b) a.
+Proof. exact div_mul_refuted. Qed.
+
+Theorem C17_div_mul_partial : forall a b : qmsg, exact_family (fam a) -> exact_family (fam b) -> wf a -> wf b ->
+  same_shape a b ->
+  msg_equiv_upto_lognorm (b_div Qops (b_sum Qops a [b]) b) a
+  /\ (lognorm (b_div Qops (b_sum Qops a [b]) b) == - lognorm b)%Q.
+Proof. exact div_mul_partial. Qed.
+
+Theorem C17_div_mul_full_iff : forall a b : qmsg, exact_family (fam a) -> exact_family (fam b) -> wf a -> wf b ->
+  same_shape a b -> (msg_equiv (b_div Qops (b_sum Qops a [b]) b) a <-> (lognorm a + lognorm b == 0)%Q).
+Proof. exact div_mul_full_iff. Qed.
+
+Theorem C17_mul_div_partial : forall a b : qmsg, exact_family (fam a) -> exact_family (fam b) -> wf a -> wf b ->
+  same_shape a b ->
+  msg_equiv_upto_lognorm (b_sum Qops (b_div Qops a b) [b]) a /\ (lognorm (b_sum Qops (b_div Qops a b) [b]) == 0)%Q.
+Proof. exact mul_div_partial. Qed.
+
+(* a**j * a**k vs a**(j+k): same defect *)
+Theorem C17_pow_add_refuted : exists (a : qmsg) (j k : Q), exact_family (fam a) /\ wf a /\
+  ~ msg_equiv (b_sum Qops (b_pow Qops a j) [b_pow Qops a k]) (b_pow Qops a (j + k)%Q).
+Proof. exact pow_add_refuted. Qed.
+
+Theorem C17_pow_add_partial : forall (a : qmsg) (j k : Q), exact_family (fam a) -> wf a ->
+  msg_equiv_upto_lognorm (b_sum Qops (b_pow Qops a j) [b_pow Qops a k]) (b_pow Qops a (j + k)%Q)
+  /\ (lognorm (b_sum Qops (b_pow Qops a j) [b_pow Qops a k]) == 0)%Q
+  /\ (lognorm (b_pow Qops a (j + k)%Q) == (j + k) * lognorm a)%Q.
+Proof. exact pow_add_partial. Qed.
+
+(* powers of powers and the first power: full statements, log_norm included *)
+Theorem C17_pow_mul : forall (a : qmsg) (j k : Q), exact_family (fam a) -> wf a ->
+  msg_equiv (b_pow Qops (b_pow Qops a j) k) (b_pow Qops a (j * k)%Q).
+Proof. exact pow_mul. Qed.
+
+Theorem C17_pow_one : forall a : qmsg, exact_family (fam a) -> wf a -> msg_equiv (b_pow Qops a 1%Q) a.
+Proof. exact pow_one. Qed.
+
+(* zeros_like: all natural parameters zero; unit of the product (up to the log_norm defect) *)
+Theorem C17_zeros_nat : forall a : qmsg, exact_family (fam a) -> wf a ->
+  Forall2 (Forall2 Qeq) (nat_of Qops (b_zeros Qops a)) (map (map (fun _ => 0%Q)) (nat_of Qops a)).
+Proof. exact zeros_nat. Qed.
+
+Theorem C17_mul_zeros_partial : forall a : qmsg, exact_family (fam a) -> wf a ->
+  msg_equiv_upto_lognorm (b_sum Qops a [b_zeros Qops a]) a.
+Proof. exact mul_zeros_partial. Qed.
+
+Theorem C17_mul_zeros_refuted : exists a : qmsg, exact_family (fam a) /\ wf a /\
+  ~ msg_equiv (b_sum Qops a [b_zeros Qops a]) a.
+Proof. exact mul_zeros_refuted. Qed.
+
+(* commutative / associative on natural parameters; sum_natural_parameters(b, c) = two products *)
+Theorem C17_mul_comm_nat : forall a b : qmsg, exact_family (fam a) -> exact_family (fam b) -> wf a -> wf b ->
+  Forall2 (Forall2 Qeq) (nat_of Qops (b_sum Qops a [b])) (nat_of Qops (b_sum Qops b [a])).
+Proof. exact mul_comm_nat. Qed.
+
+Theorem C17_mul_assoc_nat : forall a b c : qmsg,
+  exact_family (fam a) -> exact_family (fam b) -> exact_family (fam c) -> wf a -> wf b -> wf c ->
+  Forall2 (Forall2 Qeq) (nat_of Qops (b_sum Qops (b_sum Qops a [b]) [c])) (nat_of Qops (b_sum Qops a [b_sum Qops b [c]])).
+Proof. exact mul_assoc_nat. Qed.
+
+Theorem C17_sum3 : forall a b c : qmsg,
+  exact_family (fam a) -> exact_family (fam b) -> exact_family (fam c) -> wf a -> wf b -> wf c ->
+  msg_equiv (b_sum Qops a [b; c]) (b_sum Qops (b_sum Qops a [b]) [c]).
+Proof. exact sum3_is_two_products. Qed.
+
+(* fixed messages: arithmetic is the identity, every law holds with plain equality (any number type) *)
+Theorem C17_fixed_laws : forall (T : Type) (O : ops T) (a b : msg (T := T)) (j k : T), fam a = FFixed ->
+  b_div O (b_sum O a [b]) b = a /\ b_sum O (b_div O a b) [b] = a
+  /\ b_sum O (b_pow O a j) [b_pow O a k] = b_pow O a (oadd O j k) /\ b_sum O a [b_zeros O a] = a.
+Proof. exact @fixed_laws. Qed.
+
+(* ===== whole expression trees: what arithmetic can never change ===== *)
+Theorem C17_wrapper_preserved : forall (T : Type) (O : ops T) (V : variant) (env : list (mval (T := T))) (e : expr (T := T)) v,
+  eval O V env e = Some v ->
+  exists v0, nth_error env (leftvar e) = Some v0 /\ wrapper_of v = wrapper_of v0.
+Proof. exact @wrapper_preserved. Qed.
+
+Theorem C17_base_meta_preserved : forall (T : Type) (O : ops T) (V : variant) (env : list (mval (T := T))) (e : expr (T := T)),
+  Forall is_base env -> forall v, eval O V env e = Some v ->
+  exists m0 m, nth_error env (leftvar e) = Some (MB m0) /\ v = MB m /\ bmeta m = bmeta m0.
+Proof. exact @base_meta_preserved. Qed.
+
+(* limits of a transformed message: lost by the pinned code (refuted + exact description of what
+   happens), kept by the proposed repair for every expression *)
+Theorem C17_transformed_limits_refuted : exists (env : list (mval (T := Q))) (e : expr (T := Q)) v v0,
+  eval Qops pinned env e = Some v /\ nth_error env (leftvar e) = Some v0 /\ tlimits v <> tlimits v0.
+Proof. exact transformed_limits_refuted. Qed.
+
+Theorem C17_transformed_limits_current : forall (T : Type) (O : ops T) (V : variant) (env : list (mval (T := T))) (e : expr (T := T)),
+  keep_limits V = false -> is_var e = false ->
+  forall s i l h m, eval O V env e = Some (MT s i l h m) -> (l, h) = (neg_infinity, infinity).
+Proof. exact @limits_dropped. Qed.
+
+Theorem C17_transformed_limits_repaired : forall (T : Type) (O : ops T) (V : variant) (env : list (mval (T := T))) (e : expr (T := T)),
+  keep_limits V = true -> forall v, eval O V env e = Some v ->
+  exists v0, nth_error env (leftvar e) = Some v0 /\ tlimits v = tlimits v0.
+Proof. exact @limits_preserved. Qed.
+
+Theorem C17_transformed_div_mul : forall (T : Type) (O : ops T) (V : variant) s i l h (a : msg (T := T)) s' i' l' h' (b : msg (T := T)),
+  eval O V [MT s i l h a; MT s' i' l' h' b] (EDiv (EMul (EVar 0) (EVar 1)) (EVar 1))
+  = Some (rewrap V s i l h (b_div O (b_sum O a [b]) b)).
+Proof. exact @transformed_div_mul. Qed.
+
+(* zeros_like of a transformed normal: natural parameters are nan in the pinned code (binary64 witness) *)
+Theorem C17_transformed_zeros_refuted : all_zero (eval (fops true tb0) pinned [un1] (EZeros (EVar 0))) = false.
+Proof. exact transformed_zeros_refuted. Qed.
+
+Theorem C17_transformed_zeros_repaired : all_zero (eval (fops true tb0) repaired [un1] (EZeros (EVar 0))) = true.
+Proof. exact transformed_zeros_repaired. Qed.
+
+(* ===== normal family over the reals ===== *)
+Theorem C17_normal_roundtrip : forall p : list R, pvalid p -> of_nat Rops FNormal (to_nat Rops FNormal p) = p.
+Proof. exact normal_of_to. Qed.
+
+Theorem C17_normal_roundtrip_natural : forall e : list R, neg2 e -> to_nat Rops FNormal (of_nat Rops FNormal e) = e.
+Proof. exact normal_to_of. Qed.
+
+Theorem C17_normal_mul_additive : forall a b : rmsg, normal_valid a -> nvalid b ->
+  nat_of Rops (b_sum Rops a [b]) = map2 (vadd Rops) (nat_of Rops a) (nat_of Rops b) /\ normal_valid (b_sum Rops a [b]).
+Proof. exact normal_sum_additive. Qed.
+
+Theorem C17_normal_div_mul : forall a b : rmsg, normal_valid a -> nvalid b -> length (elems a) = length (elems b) ->
+  elems (b_div Rops (b_sum Rops a [b]) b) = elems a.
+Proof. exact normal_div_mul_elems. Qed.
+
+(* partial: positive exponents only -- NormalMessage is not closed under non-positive powers *)
+Theorem C17_normal_pow_partial : forall (a : rmsg) (k : R), normal_valid a -> (0 < k)%R ->
+  nat_of Rops (b_pow Rops a k) = map (vscale Rops k) (nat_of Rops a) /\ normal_valid (b_pow Rops a k).
+Proof. exact normal_pow_linear. Qed.
+
+Theorem C17_normal_pow_add_partial : forall (a : rmsg) (j k : R), normal_valid a -> (0 < j)%R -> (0 < k)%R ->
+  elems (b_sum Rops (b_pow Rops a j) [b_pow Rops a k]) = elems (b_pow Rops a (j + k)%R).
+Proof. exact normal_pow_add_elems. Qed.
+
+Theorem C17_normal_pow_mul_partial : forall (a : rmsg) (j k : R), normal_valid a -> (0 < j)%R ->
+  elems (b_pow Rops (b_pow Rops a j) k) = elems (b_pow Rops a (j * k)%R).
+Proof. exact normal_pow_mul_elems. Qed.
+
+Theorem C17_normal_negative_power_refuted :
+  opt_eqb mval_eqb (eval (fops true tb0) pinned [MB n1] (EPow (EPow (EVar 0) (-1)%float) (-1)%float)) (Some (MB n1)) = false.
+Proof. exact normal_negative_power_refuted. Qed.
+
+(* ===== projection: weighted moment matching ===== *)
+Theorem C17_project_weighted_mean : forall t w : list Q, length t = length w -> w <> [] -> ~ (seqsum Qops w == 0)%Q ->
+  (wstat Qops t (fst (norm_weights Qops w)) == seqsum Qops (map2 Qmult t w) / seqsum Qops w)%Q.
+Proof. exact project_weighted_mean. Qed.
+
+Theorem C17_project_weights_mean_one : forall w : list Q, w <> [] -> ~ (seqsum Qops w == 0)%Q ->
+  (mean Qops (fst (norm_weights Qops w)) == 1)%Q.
+Proof. exact norm_weights_mean_one. Qed.
+
+Theorem C17_natural_project : forall m1 m2 : Q, ~ (m2 - m1 * m1 == 0)%Q ->
+  match from_suff Qops FNatural [m1; m2] with
+  | [e1; e2] => (- e1 / (2 * e2) == m1)%Q /\ (- (1 # 1) / (2 * e2) + m1 * m1 == m2)%Q
+  | _ => False
+  end.
+Proof. exact natural_moment_match. Qed.
+
+Theorem C17_normal_project : forall m1 m2 : R, (m1 * m1 < m2)%R ->
+  exists sg, of_nat Rops FNormal (from_suff Rops FNormal [m1; m2]) = [m1; sg] /\ (0 < sg)%R /\ (sg * sg + m1 * m1 = m2)%R.
+Proof. exact normal_moment_match. Qed.
+
+(* ===== densities: exponential-family form, linear shift, Jacobian bookkeeping of a transform stack ===== *)
+Theorem C17_normal_logpdf_closed : forall mu sg x : R, (0 < sg)%R ->
+  normal_logpdf mu sg x = (- ln sg - (1 / 2) * ln (2 * PI) - (x - mu) * (x - mu) / (2 * (sg * sg)))%R.
+Proof. exact normal_logpdf_closed. Qed.
+
+Theorem C17_shift_density : forall mu sg s c x : R, (0 < sg)%R -> (0 < c)%R ->
+  (normal_logpdf mu sg ((x - s) / c) + - ln c)%R = normal_logpdf (s + c * mu)%R (c * sg)%R x.
+Proof. exact shift_factor_is_density. Qed.
+
+Theorem C17_transform_density : forall (p : R -> R) (rs : list rtrans) (x : R), good rs x ->
+  exists D, derivable_pt_lim (fun z => fst (tdet rs z)) x D /\ (0 < D)%R /\
+            tfactor p rs x = (p (fst (tdet rs x)) + ln D)%R.
+Proof. exact tfactor_change_of_variables. Qed.
+
+Print Assumptions C17_div_mul_partial.
+Print Assumptions C17_wrapper_preserved.
+Print Assumptions C17_transformed_zeros_refuted.
+Print Assumptions C17_normal_div_mul.
+Print Assumptions C17_transform_density.
